@@ -8,6 +8,7 @@ INPKG = {
     "pkg/cache": {"dir": "cache", "clock_subst": ["cache.go"]},
     "cmd/glyph": {"dir": "cmdglyph"},
     "pkg/server": {"dir": "server", "clock_subst": ["middleware.go"]},
+    "pkg/database": {"dir": "database"},
 }
 
 HOOK_COMMITS = []   # no guarded source change is committed in /repo; overlays only
@@ -174,6 +175,35 @@ CHECKS = {
         "units": [
             {"name": "c12-calls", "bin": "c12", "build": "harness:c12", "run": "^TestC12Probe$", "quick": 40000, "thorough": 2000000},
             {"name": "c12-matrix", "bin": "c12", "build": "harness:c12", "run": "^TestC12Matrix$", "enumerate": True, "shards": 14},
+        ],
+    },
+    "C13": {
+        "level": "exploration",
+        "manifest": {
+            "technique": "adversarial-string property-based testing (rapid) of every query-building entry point with a rejection oracle, a value-independence metamorphic oracle, a template tokeniser and execution against a real in-memory SQLite with a sentinel table",
+            "level_text": "Tables, columns, operators, sort directions, join types, column types and values are drawn from pools mixing valid spellings with quotes of every kind, comment markers, semicolons, NUL, newlines, unicode look-alikes and classic payloads, and fed to the query builder (Select/Where/OrderBy/Join/Limit/Offset), ORM Create/Update/Delete/Count/FindByID and, per dialect (SQLite, PostgreSQL and MySQL structs on a recording database/sql driver), BulkInsert, CreateTable, DropTable, TableExists, GetLastInsertID and the identifier sanitizers. (1) anything outside the safe grammar => an error and no statement reaches the driver; (2) the SQL text is identical for another value vector of the same shape, contains no value, and the bound arguments are exactly the values; (3) the text tokenises into template keywords, quoted identifiers that were supplied as identifiers, placeholders, numbers and punctuation only; (4) on a real SQLite the sentinel table, sqlite_master (apart from the named table) and the columns of other tables are unchanged, CreateTable yields exactly the named columns and Create stores hostile values verbatim.",
+            "level_note": "White-box (package database) so that PostgresDB/MySQLDB can run on the recording driver. ORDER BY is judged by how the builder reads its two arguments (joined and split on blanks). Column types between the must-accept list and the must-reject rules are unspecified and only the execution oracle applies to them.",
+        },
+        "rule": ("rapid-generated calls (16 entry points x 3 dialects, 12% hostile identifiers, 25% hostile column types, hostile values); non-trivial = the call was rejected because of a hostile string, or accepted with a value containing a metacharacter, or is a CreateTable; distinct = hash of the case"),
+        "assumptions": ["the recording driver accepts every statement, so text-level oracles do not depend on a server"],
+        "units": [
+            {"name": "c13-text", "bin": "database", "build": "inpkg:pkg/database", "run": "^TestC13Text$", "quick": 60000, "thorough": 3000000},
+            {"name": "c13-exec", "bin": "database", "build": "inpkg:pkg/database", "run": "^TestC13Exec$", "quick": 8000, "thorough": 300000},
+        ],
+    },
+    "C14": {
+        "level": "fault_enumeration",
+        "manifest": {
+            "technique": "fault enumeration over statement sequences (complete for length <= 3) plus property-based generation (rapid) of longer sequences, fault kinds and positions, on a real in-memory SQLite with a map model and on a recording database/sql driver for the PostgreSQL / MySQL / ORM transaction helpers",
+            "level_text": "Inside SQLiteDB.Transaction a sequence of inserts, updates, deletes and constraint-violating inserts on two tables runs with a fault at every position: callback returns an error, callback panics, a statement fails, the context is cancelled, a nested Transaction (which cannot get the single pooled connection and gives up at its deadline). Afterwards the tables equal the pre-state (any fault, or a failing statement) or the pre-state plus all effects (no fault), the panic is re-raised as is, Transaction's error reflects the outcome, a plain query and a following transaction work. BulkInsert with a bad row at each index (duplicate key, NULL, short row) leaves all rows or none. On the recording driver PostgresDB/MySQLDB/ORM.Transaction must issue exactly begin+commit or begin+rollback, re-raise panics, and every statement issued through the transaction (for the ORM: through ORM methods with the callback's context) must run on the transaction's connection.",
+            "level_note": "The exhaustive sub-space (all sequences of length <= 3 over six statements x five fault kinds x all positions) is reported by the c14-small unit with exhaustive:true; the other units are sampled. PostgreSQL and MySQL are exercised only against the recording driver (no server in the sandbox).",
+        },
+        "rule": ("enumerated (sequence, fault, position) triples and rapid-generated longer ones, plus bulk inserts; non-trivial = a fault strikes after at least one statement ran inside the transaction (or a bad row after the first row); distinct = hash of the case"),
+        "assumptions": ["SQLite's pool holds one connection (as SQLiteDB.Connect configures), so nested transactions are bounded by a 150 ms deadline"],
+        "units": [
+            {"name": "c14-sqlite", "bin": "database", "build": "inpkg:pkg/database", "run": "^TestC14SQLite$", "quick": 6000, "thorough": 300000, "gomaxprocs": 4},
+            {"name": "c14-small", "bin": "database", "build": "inpkg:pkg/database", "run": "^TestC14Small$", "enumerate": True, "shards": 14, "gomaxprocs": 4},
+            {"name": "c14-rec", "bin": "database", "build": "inpkg:pkg/database", "run": "^TestC14Rec$", "quick": 20000, "thorough": 500000},
         ],
     },
     "C18": {
